@@ -87,8 +87,9 @@ PROPS = {
         'level_note': 'propagate() is a call-site summary in the verdict contract (its loop is proved per element in C02); '
                       'update_snr proved for up to three contributions; the automatic mode search loop '
                       '(propagate_and_optimize_mode: ordering by baud rate then bit rate, blocking reasons) is not under contract '
-                      'but a bounded stand-in against fixed-mode planning of every mode (random synthetic libraries, modes of one '
-                      'baud rate sharing one power offset); penalty tables / out-of-table blocking / successive-mode histories, '
+                      'but a bounded stand-in against fixed-mode planning of every mode (random synthetic libraries, power offsets drawn '
+                      'per baud rate or per mode; two deterministic families: modes of one baud rate with different offsets, a '
+                      'saturating mode explored first - known finding F58); penalty tables / out-of-table blocking / successive-mode histories, '
                       'the planner\'s fixed-mode verdict with penalty tables end to end, and which add / drop impairment set a '
                       'crossing counts, are bounded stand-ins',
         'trusted': NUMPY_TRUST + ['numpy.argmin (an index attaining the minimum)', 'propagate call-site summary'],
